@@ -190,6 +190,13 @@ def run(chk):
                 v = struct.unpack('>I', silf[ps + fo:ps + fo + 4])[0]
                 nv = rng.choice((0, v + 1, v - 1, v + 2, 0xFFFFFFFF, v // 2)) & 0xFFFFFFFF
                 silf[ps + fo:ps + fo + 4] = struct.pack('>I', nv); what = 'u32@%d %d->%d' % (fo, v, nv)
+            elif kind < 0.82:                                             # the pre-context bounds / pass-constraint length after the rule map
+                nrg, nsu = struct.unpack('>H', silf[ps + 32:ps + 34])[0], struct.unpack('>H', silf[ps + 28:ps + 30])[0]
+                o = 40 + 6 * nrg + 2 * nsu
+                ne = struct.unpack('>H', silf[ps + o:ps + o + 2])[0]
+                fo = o + 2 + 2 * ne + rng.choice((0, 1))
+                nv = rng.choice((0, 1, 2, 3, 255))
+                what = 'prectx@%d %d->%d' % (fo, silf[ps + fo], nv); silf[ps + fo] = nv
             elif kind < 0.9:                                              # any byte of the pass body (arrays, offsets, pre-context bounds)
                 ln = offs[pi + 1] - offs[pi]
                 fo = rng.randrange(40, ln)
